@@ -18,11 +18,11 @@ class Harness:
     real_replay(payload) -> (bool reproduced, str how) | None: second replay against the real libraries (optional).
     """
     def __init__(self, name, scenario, twin=None, bounds=None, functions=(), stubs=(), assumptions=(),
-                 real_replay=None, budget_s=600, expand=256, chunk_paths=400, max_paths=None, solver_timeout_ms=20000):
+                 real_replay=None, budget_s=600, expand=256, chunk_paths=400, max_paths=None, solver_timeout_ms=20000, fresh_queries=False):
         self.name = name; self.scenario = scenario; self.twin = twin; self.bounds = bounds or {}
         self.functions = list(functions); self.stubs = list(stubs); self.assumptions = list(assumptions)
         self.real_replay = real_replay; self.budget_s = budget_s; self.expand = expand; self.chunk_paths = chunk_paths
-        self.max_paths = max_paths; self.solver_timeout_ms = solver_timeout_ms
+        self.max_paths = max_paths; self.solver_timeout_ms = solver_timeout_ms; self.fresh_queries = fresh_queries
 
 
 # ---------------------------------------------------------------------------------------- parallel exploration
@@ -37,7 +37,7 @@ def _sigkey(sig):
 def _worker(args):
     roots, max_paths, deadline = args
     fn = _TASK['fn']
-    e = Engine(solver_timeout_ms=_TASK['solver_timeout_ms'])
+    e = Engine(solver_timeout_ms=_TASK['solver_timeout_ms'], fresh_queries=_TASK['fresh_queries'])
     found = {}
     def on_v(p):
         k = _sigkey(p['signature'])
@@ -57,9 +57,9 @@ def _worker(args):
 def explore_parallel(h, fn, stop_at_first=False, budget_s=None):
     """returns dict(stats, found(list of payloads, distinct signatures), exhausted, err, samples)"""
     t0 = time.time(); deadline = t0 + (budget_s or h.budget_s)
-    _TASK['fn'] = fn; _TASK['solver_timeout_ms'] = h.solver_timeout_ms
+    _TASK['fn'] = fn; _TASK['solver_timeout_ms'] = h.solver_timeout_ms; _TASK['fresh_queries'] = h.fresh_queries
     stats = Stats(); found = {}; samples = []; osigs = set()
-    e = Engine(solver_timeout_ms=h.solver_timeout_ms)
+    e = Engine(solver_timeout_ms=h.solver_timeout_ms, fresh_queries=h.fresh_queries)
     try:
         open_, viol = e.expand(fn, h.expand if NPROC > 1 else 1)
     except Inconclusive as ex:
